@@ -39,6 +39,7 @@ type childSpec struct {
 	History *history   `json:"history,omitempty"`
 	Scen    *concScen  `json:"scen,omitempty"`
 	MScen   *msaveScen `json:"mscen,omitempty"`
+	Storm   *stormScen `json:"storm,omitempty"`
 }
 
 var raceScope = []string{
@@ -59,7 +60,7 @@ func main() {
 		"with acceptable and unacceptable values of every Go type and JSON-decoded shape; after every step all getters (old and new, plain and Concurrent, wrong-type, unknown), UserValue/IsSetByUser, " +
 		"GetActiveConfigValues and the returned errors are compared with a three-layer model. concurrent case = one setter (40-160 operations with unique increasing values; set/default/replace/delete/release-level gate scripts) " +
 		"against 2-16 readers using shared Concurrent getters, private plain getters and fresh getters, under a hook plan (none, random delays, reader parked between flag and value, setter parked before the signal), " +
-		"decided by the regular-register condition on call/ret sequence numbers. concurrent-setter case = 2-4 goroutines calling SetConfigOption (own options and a shared one, unique increasing values, config file configured) in 60-120 rounds; at every quiescence the user layer must hold a set nothing follows, the file must parse and equal the user layer, a strict load after clearing must restore it, and getter reads obey the multi-writer regular-register rule. distinct = distinct history specs / scenario specs; every case is non-trivial (it is compared with the model at every step / every read)")
+		"decided by the regular-register condition on call/ret sequence numbers. concurrent-setter case = 2-4 goroutines calling SetConfigOption (own options and a shared one, unique increasing values, config file configured) in 60-120 rounds; at every quiescence the user layer must hold a set nothing follows, the file must parse and equal the user layer, a strict load after clearing must restore it, and getter reads obey the multi-writer regular-register rule. setter-storm case = 2-4 setters (user or default layer, no file, optionally paired up at the presignal hook) in 40-70 rounds of 8-24 sets each against 3-6 readers that keep refreshing shared Concurrent getters, private plain getters and GetActiveConfigValues; every read obeys the regular-register rule, at quiescence every getter that lived through the round shows the final value, and after one more sequential change of every option shows that change too. distinct = distinct history specs / scenario specs; every case is non-trivial (it is compared with the model at every step / every read)")
 	rep.Assume("model: effective release level = effective value of core/releaseLevel under the same user > default layer > registered default rule")
 	rep.Assume("int options accept Go integer types up to 32 bit unsigned / 64 bit signed and floats without fraction; uint64/uintptr may be accepted or rejected; regular expressions of int options apply to the decimal representation")
 	rep.Assume("plain (non-Concurrent) getters are only used by the goroutine that created them")
@@ -106,6 +107,15 @@ func main() {
 		if cfg.BinRace != "" {
 			for i := 0; i < cfg.N(2, 12); i++ {
 				add(fmt.Sprintf("msaverace-%03d", i), cfg.BinRace, childSpec{Mode: "msave", Batch: 5000 + i, N: cfg.N(2, 4), Race: true}, 15*time.Minute)
+			}
+		}
+		// overlapping setters without a file against getters of every kind
+		for i := 0; i < cfg.N(10, 40); i++ {
+			add(fmt.Sprintf("storm-%03d", i), cfg.BinPlain, childSpec{Mode: "storm", Batch: 6000 + i, N: cfg.N(3, 6)}, 10*time.Minute)
+		}
+		if cfg.BinRace != "" {
+			for i := 0; i < cfg.N(2, 12); i++ {
+				add(fmt.Sprintf("stormrace-%03d", i), cfg.BinRace, childSpec{Mode: "storm", Batch: 7000 + i, N: cfg.N(2, 4), Race: true}, 15*time.Minute)
 			}
 		}
 		for i := 0; i < nLive; i++ {
@@ -169,6 +179,7 @@ func main() {
 		rep.Floor(rep.SeenCount("interleaving_signatures") >= 20, "distinct interleaving signatures=%d (<20)", rep.SeenCount("interleaving_signatures"))
 		rep.Floor(rep.Counter("quiescence_checks") >= 300, "quiescence checks after concurrent setters=%d (<300)", rep.Counter("quiescence_checks"))
 		rep.Floor(rep.Counter("perspective_reads_after_level_change") >= 10000, "reads of kept-alive perspectives after a release-level change=%d (<10000)", rep.Counter("perspective_reads_after_level_change"))
+		rep.Floor(rep.Counter("storm_rounds") >= 500, "setter-storm rounds=%d (<500)", rep.Counter("storm_rounds"))
 		rep.Floor(rep.SeenCount("op_kinds") >= 9, "operation kinds seen=%d", rep.SeenCount("op_kinds"))
 		// every option type x constraint kind x set-like operation
 		missing := 0
@@ -227,6 +238,7 @@ func replaySpec(path string) (childSpec, error) {
 			History  *history   `json:"history"`
 			Scenario *concScen  `json:"scenario"`
 			MScen    *msaveScen `json:"mscen"`
+			Storm    *stormScen `json:"storm"`
 		} `json:"detail"`
 	}
 	b, err := os.ReadFile(path)
@@ -239,6 +251,8 @@ func replaySpec(path string) (childSpec, error) {
 	switch {
 	case doc.Detail.History != nil:
 		return childSpec{Mode: "replay-seq", History: doc.Detail.History}, nil
+	case doc.Detail.Storm != nil:
+		return childSpec{Mode: "replay-storm", Storm: doc.Detail.Storm, N: 5}, nil
 	case doc.Detail.MScen != nil:
 		return childSpec{Mode: "replay-msave", MScen: doc.Detail.MScen, N: 5}, nil
 	case doc.Detail.Scenario != nil:
@@ -307,6 +321,23 @@ func childMain(dir string) {
 				b.Sample(map[string]any{"mode": "concurrent setters with a config file", "scenario": sc})
 			}
 		}
+	case "storm":
+		for s := 0; s < cs.N; s++ {
+			r := vlib.NewRand(cs.Seed, fmt.Sprintf("C04/storm/%d", cs.Batch), uint64(s))
+			sc := genStormScen(r, fmt.Sprintf("t%ds%d", cs.Batch, s), cs.Race)
+			runStormScenario(b, sc)
+			if s == 0 && cs.Batch == 6000 {
+				b.Sample(map[string]any{"mode": "setter storm", "scenario": sc})
+			}
+		}
+	case "replay-storm":
+		for s := 0; s < cs.N; s++ {
+			sc := *cs.Storm
+			sc.ID = fmt.Sprintf("%s_r%d", sc.ID, s)
+			runStormScenario(b, sc)
+		}
+		b.DistinctS("replay-a")
+		b.DistinctS("replay-b")
 	case "replay-msave":
 		for s := 0; s < cs.N; s++ {
 			sc := *cs.MScen
